@@ -280,7 +280,7 @@ func init() {
 		Monitors: func(st *Stats) []Monitor { return []Monitor{NewC18ChainMonitor(st)} }, Cases: tierMap(32, 96), Blocks: tierMap(250, 600)})
 	Register(&PropDef{ID: "C09chain",
 		Profile: func(tier string, r *Rng) Profile {
-			return Profile{Name: "c09-tbr", MinTx: 3, MaxTx: 8, Hostile: 0.1, GapBig: 0.04, Gov: true, Fragments: []string{"mintInit", "offParOrigins", "depositPair"},
+			return Profile{Name: "c09-tbr", MinTx: 3, MaxTx: 8, Hostile: 0.1, GapBig: 0.04, Gov: true, Fragments: []string{"mintInit", "twinReportsStakeChange", "offParOrigins", "depositPair"},
 				W: map[string]float64{"submit": 30, "tip": 12, "createReporter": 5, "selectReporter": 6, "delegate": 8, "unjailVal": 5, "govVote": 5, "govProposal": 0.6, "registerSpec": 1}}
 		},
 		Monitors: func(st *Stats) []Monitor { return []Monitor{NewC09ChainMonitor(st)} }, Cases: tierMap(32, 96), Blocks: tierMap(250, 600)})
